@@ -89,6 +89,7 @@ type enc struct {
 	writeProps  []string
 	closed      map[string]bool
 	defText     map[string]string
+	ghostFns    map[string]bool
 	ghostEntry  map[string]Term
 	ghostTy     map[string]types.Type
 }
@@ -146,6 +147,17 @@ func splitConj(goal Term) []Term {
 			var out []Term
 			for _, s := range sub {
 				out = append(out, "(=> "+parts[1]+" "+s+")")
+			}
+			return out
+		}
+	}
+	if len(parts) == 3 && (parts[0] == "forall" || parts[0] == "let") && !strings.HasPrefix(strings.TrimSpace(parts[2]), "(!") {
+		// a universally quantified conjunction is the conjunction of the quantified conjuncts
+		sub := splitConj(parts[2])
+		if len(sub) > 1 {
+			var out []Term
+			for _, s := range sub {
+				out = append(out, "("+parts[0]+" "+parts[1]+" "+s+")")
 			}
 			return out
 		}
